@@ -211,6 +211,56 @@ fn gen_decoders(out: &mut Out, thorough: bool) {
     }
 }
 
+/// stride regime (added after the seeded defect C17_2 was found to be caught only by luck of the seed: a changed comparison
+/// constant in the `simd-accel` kernel of the x-user-defined decoder, visible only for byte 0x80 *inside a full 16-byte
+/// stride*): every byte value at positions around the stride boundaries of a 40-byte buffer of ASCII letters / ASCII
+/// punctuation (the single-byte decoders treat bytes below 60 differently), through every decoder into both sinks
+fn gen_decoder_strides(out: &mut Out, thorough: bool) {
+    let positions: &[usize] = if thorough { &[0, 1, 5, 7, 8, 15, 16, 17, 24, 31, 32, 33, 39] } else { &[0, 7, 15, 16, 17, 31, 33] };
+    for &e in ALL.iter() {
+        for filler in [b'a', b' '] {
+            for b in 0..=255u8 {
+                if b == filler {
+                    continue;
+                }
+                for &pos in positions {
+                    let mut stream = vec![filler; 40];
+                    stream[pos] = b;
+                    for sink16 in [false, true] {
+                        let p = Plan { enc: e, bom: Bom::Off, sink16, repl: false, stream: stream.clone(), cuts: vec![40], caps: vec![160], skip: false };
+                        dec::emit(out, &p, &[]);
+                    }
+                }
+            }
+        }
+    }
+}
+
+/// the same for the encoders, from UTF-16: every unit of 0..=0x17F, the x-user-defined range and its neighbours, and a few
+/// boundary units, at positions around the stride boundary of a 24-unit buffer of ASCII letters
+fn gen_encoder_strides(out: &mut Out, thorough: bool) {
+    let positions: &[usize] = if thorough { &[0, 1, 7, 8, 14, 15, 16, 17, 23] } else { &[0, 7, 15, 16, 23] };
+    let mut units: Vec<u16> = (0..=0x17Fu16).collect();
+    units.extend(0xF77Eu16..=0xF801);
+    units.extend([0x7FF, 0x800, 0x3042, 0x4E00, 0xAC00, 0xD7FF, 0xE000, 0xFFFD, 0xFFFF]);
+    for &e in ALL.iter() {
+        if e.output_encoding() != e {
+            continue;
+        }
+        let id = ident(e);
+        for &u in &units {
+            if u == b'a' as u16 {
+                continue;
+            }
+            for &pos in positions {
+                let mut v = vec![b'a' as u16; 24];
+                v[pos] = u;
+                out.op(format!("encchar16 {} {}", id, hex16(&v)), encode_units(e, &v));
+            }
+        }
+    }
+}
+
 /// both validator paths, always both lines: ASCII / two- / three- / four-byte text of 56..=136
 /// bytes (the SIMD validator is taken from 64 bytes on), intact and with one defect planted at
 /// every 7th position
@@ -272,6 +322,8 @@ pub fn generate(prop: &str, out: &mut Out, thorough: bool, seed: u64) -> bool {
     }
     gen_encoders(out, thorough, seed);
     gen_decoders(out, thorough);
+    gen_decoder_strides(out, thorough);
+    gen_encoder_strides(out, thorough);
     gen_validator_paths(out, thorough);
     valid::generate("C14", out, thorough, seed);
     memconv::generate("C15", out, thorough, seed);
